@@ -295,12 +295,16 @@ impl Engine {
             self.condition.fperiod,
         );
 
+        #[cfg(jbonsai_verif)]
+        crate::verif::yield_point(7);
         let models = Models::new(
             labels.labels(),
             &self.voices,
             &self.condition.interporation_weight,
         );
 
+        #[cfg(jbonsai_verif)]
+        crate::verif::yield_point(8);
         let estimator = DurationEstimator::new(models.duration(), models.nstate());
         let durations = if self.condition.phoneme_alignment_flag {
             estimator.create_with_alignment(labels.times())
@@ -313,12 +317,16 @@ impl Engine {
             value
         }
 
+        #[cfg(jbonsai_verif)]
+        crate::verif::yield_point(9);
         let spectrum = MlpgAdjust::new(
             self.condition.gv_weight[0],
             self.condition.msd_threshold[0],
             models.model_stream(0),
         )
         .create(&durations);
+        #[cfg(jbonsai_verif)]
+        crate::verif::yield_point(10);
         let lf0 = MlpgAdjust::new(
             self.condition.gv_weight[1],
             self.condition.msd_threshold[1],
@@ -328,6 +336,8 @@ impl Engine {
             }),
         )
         .create(&durations);
+        #[cfg(jbonsai_verif)]
+        crate::verif::yield_point(11);
         let lpf = if self.voices.global_metadata().num_streams > 2 {
             MlpgAdjust::new(
                 self.condition.gv_weight[2],
@@ -339,6 +349,8 @@ impl Engine {
             vec![vec![0.0; 0]; lf0.len()]
         };
 
+        #[cfg(jbonsai_verif)]
+        crate::verif::yield_point(12);
         Ok(SpeechGenerator::new(
             self.condition.fperiod,
             vocoder,
